@@ -1,4 +1,7 @@
 """The cache mechanism, shared by C11 and C20 (spec/Cache.tla; see DESIGN.md section 3):
+(0) LifeProofs.tla: the lifetime arithmetic of one record (marks ordered, refresh once per mark and never after expiry,
+    cache-flush and verify only shorten, a restart puts the record back to the first mark) proved with TLAPS for every
+    TTL and instant over the operators of Life.tla that Cache.tla is built from (C11 only);
 (a) MCCache.tla: the mechanism model refines the statement-level table Heard.tla that the daemon monitors use
     (NeverLonger, NotEarlier, Present, Reported) and satisfies WellFormed / KeysNeeded / SubsNeeded, exhaustively over
     small histories; three configurations with one pinned behaviour switched back on each must FAIL (the model can
@@ -46,7 +49,7 @@ def _cases(prop):
     return r, path, n
 
 
-def step(prop, prefixes, mc_cfgs, v, tier, seed, mc_thorough=()):
+def step(prop, prefixes, mc_cfgs, v, tier, seed, mc_thorough=(), proofs=False):
     """Runs (a)-(c); returns what run_group merges into its account."""
     _consistent()
     thorough = tier == "thorough"
@@ -56,6 +59,12 @@ def step(prop, prefixes, mc_cfgs, v, tier, seed, mc_thorough=()):
         mcs.append(r)
         if not r["ok"]:
             v.violation(prop + ".model", {"module": "MCCache", "cfg": cfg}, {"tlc_error": r.get("error", "")[:2000], "cmd": r["cmd"]})
+    if proofs:
+        # the lifetime arithmetic for every TTL and instant: LifeProofs.tla over the operators Cache.tla is built from
+        r = core.tlapm("LifeProofs", prop.lower() + "-life")
+        mcs.append(r)
+        if not r["ok"]:
+            v.violation(prop + ".model", {"module": "LifeProofs", "cfg": "tlapm"}, {"tlc_error": r.get("error", "")[:2000], "cmd": r["cmd"]})
     for cfg, inv in NEGATIVE:
         r = core.tlc_mc("MCCache", cfg, "%s-%s" % (prop.lower(), cfg.replace(".cfg", "")), workers=4)
         mcs.append(r)
